@@ -291,8 +291,46 @@ def gen_consts():
         lean_str(a) for a in sorted(set(ra.get("resetState", [])))))
     out.append("def initAttrs : List String := [%s]" % ", ".join(
         lean_str(a) for a in sorted(set(ra.get("__init__", [])))))
+    for name, pairs in initial_values().items():
+        out.append("def %s : List (String × String) := [%s]" % (name, ", ".join(
+            "(%s, %s)" % (lean_str(a), lean_str(v)) for (a, v) in pairs)))
     out.append("end ERP.Gen")
     return "\n".join(out) + "\n"
+
+
+def initial_values():
+    """Source text of the values a new print / a new object starts from."""
+    def func(mod, cls, name):
+        tree = ast.parse(_src(mod))
+        for c in tree.body:
+            if isinstance(c, ast.ClassDef) and c.name == cls:
+                for f in c.body:
+                    if isinstance(f, ast.FunctionDef) and f.name == name:
+                        return f
+        raise TranslateError("initial values: %s.%s not found" % (cls, name))
+
+    def self_assigns(stmts):
+        out = []
+        for st in stmts:
+            if isinstance(st, ast.Assign) and len(st.targets) == 1 and isinstance(st.targets[0], ast.Attribute) \
+                    and isinstance(st.targets[0].value, ast.Name) and st.targets[0].value.id == "self":
+                out.append((st.targets[0].attr, ast.unparse(st.value)))
+        return out
+    res = {}
+    res["resetStateValues"] = self_assigns(func("ExcludeRegionState.py", "ExcludeRegionState", "resetState").body)
+    f = func("Position.py", "Position", "__init__")
+    first_if = [st for st in f.body if isinstance(st, ast.If)]
+    if not first_if or ast.unparse(first_if[0].test) != "position is None":
+        raise TranslateError("initial values: shape of Position.__init__")
+    res["positionInitValues"] = self_assigns(first_if[0].body)
+    f = func("AxisPosition.py", "AxisPosition", "__init__")
+    names = [a.arg for a in f.args.args][1:]
+    if len(names) != len(f.args.defaults):
+        raise TranslateError("initial values: AxisPosition.__init__ defaults")
+    res["axisDefaultValues"] = [(n, ast.unparse(d)) for n, d in zip(names, f.args.defaults)]
+    f = func("RetractionState.py", "RetractionState", "__init__")
+    res["retractionInitValues"] = [(a, v) for (a, v) in self_assigns(f.body) if v in ("True", "False", "None")]
+    return res
 
 
 # ---- geometry: the pure float expressions of RectangularRegion.py / CircularRegion.py are turned
@@ -470,8 +508,8 @@ class _Imp(object):
             return "bool"
         if isinstance(n, ast.Name):
             return self.env.get(n.id, "num")
-        if isinstance(n, ast.Attribute) and isinstance(n.value, ast.Name) and n.value.id == "self":
-            return self.env.get("self_" + n.attr, "num")
+        if isinstance(n, ast.Attribute) and isinstance(n.value, ast.Name):
+            return self.env.get(n.value.id + "_" + n.attr, "num")
         if isinstance(n, ast.IfExp):
             return self.ty(n.body)
         if isinstance(n, ast.Constant) and isinstance(n.value, bool):
@@ -512,9 +550,9 @@ class _Imp(object):
             if n.id in self.env:
                 return n.id
             raise TranslateError("arith: free name %s" % n.id)
-        if isinstance(n, ast.Attribute) and isinstance(n.value, ast.Name) and n.value.id == "self" \
-                and "self_" + n.attr in self.env:
-            return "self_" + n.attr
+        if isinstance(n, ast.Attribute) and isinstance(n.value, ast.Name) \
+                and n.value.id + "_" + n.attr in self.env:
+            return n.value.id + "_" + n.attr
         if isinstance(n, ast.UnaryOp) and isinstance(n.op, ast.USub):
             return "(-%s)" % self.ex(n.operand)
         if isinstance(n, ast.UnaryOp) and isinstance(n.op, ast.Not):
@@ -556,6 +594,8 @@ class _Imp(object):
                 return args[0]
             if f.startswith("self.") and f[5:] in self.calls:
                 return self.calls[f[5:]](self, args)
+            if f in self.calls:
+                return self.calls[f](self, args)
         raise TranslateError("arith: cannot translate %s" % src[:100])
 
     def cond(self, n):
@@ -694,6 +734,29 @@ def gen_arith():
         out += ["/-- `AxisPosition.%s(%s)`: the new value of %s -/" % (fname, arg, ", ".join(r[5:] for r in res)),
                 "def %s %s (%s : α) : %s :=\n%s" % (fname, selfparams, arg, " × ".join("α" for _ in res),
                                                    imp.block(f.body, tup, 1)), ""]
+    # ExcludeRegionState._exitCoordinate(axis, lastAxis) (a static method)
+    st = ast.parse(_src("ExcludeRegionState.py"))
+    f = None
+    for c in st.body:
+        if isinstance(c, ast.ClassDef) and c.name == "ExcludeRegionState":
+            for g in c.body:
+                if isinstance(g, ast.FunctionDef) and g.name == "_exitCoordinate":
+                    f = g
+    if f is None or [a.arg for a in f.args.args] != ["axis", "lastAxis"] or not isinstance(f.body[-1], ast.Return):
+        raise TranslateError("arith: ExcludeRegionState._exitCoordinate not found / changed")
+    env = dict(("axis_" + a, "num") for a in attrs)
+    env["axis_absoluteMode"] = "bool"
+    env["lastAxis_current"] = "num"
+
+    def n2l_call(imp, args):
+        if args:
+            raise TranslateError("arith: call of nativeToLogical in _exitCoordinate")
+        return ("(nativeToLogical axis_current axis_homeOffset axis_offset axis_unitMultiplier axis_absoluteMode"
+                " axis_current true true true)")
+    imp = _Imp(env, calls={"axis.nativeToLogical": n2l_call})
+    out += ["/-- `ExcludeRegionState._exitCoordinate(axis, lastAxis)` -/",
+            "def exitCoordinate (axis_current axis_homeOffset axis_offset axis_unitMultiplier : α) (axis_absoluteMode : Bool)\n"
+            "    (lastAxis_current : α) : α :=\n" + imp.block(f.body[:-1], f.body[-1].value, 1), ""]
     gh = ast.parse(_src("GcodeHandlers.py"))
     f = _method(gh, "GcodeHandlers", "computeArcCenterOffsets", ["endX", "endY", "radius", "clockwise"])
     imp = _Imp({"endX": "num", "endY": "num", "radius": "num", "clockwise": "bool"},
